@@ -162,7 +162,10 @@ class Fn:
                     return self.show(a, alias, depth + 1)
             return n["n"]
         if k == "member":
-            return S(n["a"][0]) + ("->" if n["arrow"] else ".") + n["f"]
+            b_ = S(n["a"][0])
+            if n["arrow"] and b_.startswith("&") and all(ch.isalnum() or ch in "_$.->[]" for ch in b_[1:]):
+                return b_[1:] + "." + n["f"]  # (&x)->f is x.f (an address bound to a helper's parameter, sa/flatten.py)
+            return b_ + ("->" if n["arrow"] else ".") + n["f"]
         if k == "un":
             op = n["op"]
             x = S(n["a"][0])
